@@ -35,6 +35,11 @@ CHECKS.update({
          'Metamorphic relation + absolute oracles over generated histories; thousands (quick) to ~10^5 (thorough).',
          'Header fields are generated in ascending type order (as NFD sends them); token clause on appv2 only.', '6/C10'),
 })
+CHECKS.update({
+ 'C07': ('Differential fuzzing of five decoders against an independent strict reader: Hypothesis random / framed-random / grammar-generated / mutated inputs + enumeration of every single-edit mutation of seed packets; oracles: allowed exception classes, accept=>strict-accept, canonical well-formed => accept, field equality, sys.monitoring line budget for linear time',
+         'Differential generated-input search; the strict reader is an independent implementation of the NDN-TLV evolvability rules with per-packet field tables. 10^4 (quick) to >10^6 (thorough) inputs. One known finding is recognised precisely (result equals the strict reading with the clamping defect emulated).',
+         'Trusts pbt/pkt.py strict readers; fixed Nonce/HopLimit widths and component type ranges are not demanded (the property does not list them).', '6/C07'),
+})
 NOT_YET = {}
 def main():
     props = [json.loads(l) for l in open(os.path.join(ROOT, 'properties.jsonl'))]
